@@ -1,10 +1,13 @@
 //! wrap_probe — C09 tracee: calls every raw system-call wrapper exported by rusl, one case at a time.
 //!
-//! usage: wrap_probe list            -> prints `<id> <name> <syscall nr>` per wrapper
-//!        wrap_probe run < cases     -> case lines `<wrapper id> <case id> F <forced kernel result>`
+//! usage: wrap_probe list            -> prints `<id> <name> <syscall nr> <applicable corner shapes>` per wrapper
+//!        wrap_probe run < cases     -> case lines `<wrapper id> <case id> F <forced kernel result> [<shape>]`
 //!                                      or          `<wrapper id> <case id> R <variant>` (real call)
+//! Corner shapes (forced mode only, the kernel never sees them): 0 the plain arguments, 1 equal descriptors,
+//! 2 descriptor 0, 3 descriptor i32::MAX, 4 empty path, 5 both paths equal, 6 empty buffers / slices / zero length,
+//! 7 zero scalars (ids, offsets, counts, timeouts, flags), 8 extreme scalars (MAX / -1 / all flags)
 //! Per case (must run under sysmon, `--scope-markers`):
-//!   BEGIN(w, c, mode, r|variant)   mode 0 = forced, 1 = real
+//!   BEGIN(w, c, mode, r|variant, shape)   mode 0 = forced, 1 = real
 //!   forced: INJECT(thread, nr, 0, r, FORCED_N) then INJECT(thread, nr, 0, -EBADF, FUSE_N): the call is never
 //!           executed; a wrapper that re-issues keeps seeing r, after FORCED_N re-issues it sees EBADF (fuse)
 //!   real:   INJECT(thread, nr, REAL_N, -EBADF, FUSE_N): the first REAL_N issues run for real
@@ -162,6 +165,55 @@ table! {
     io_uring_enter = 426;
 }
 
+const SH_EQ_FDS: i64 = 1;
+const SH_FD_ZERO: i64 = 2;
+const SH_FD_MAX: i64 = 3;
+const SH_EMPTY_PATH: i64 = 4;
+const SH_SAME_PATH: i64 = 5;
+const SH_EMPTY_BUF: i64 = 6;
+const SH_ZERO: i64 = 7;
+const SH_EXTREME: i64 = 8;
+
+/// corner shapes that change at least one argument of the wrapper (derived from its signature)
+#[allow(clippy::too_many_lines, clippy::match_same_arms)]
+fn shapes(w: W) -> &'static [i64] {
+    match w {
+        // two descriptors
+        W::dup2 | W::dup3 | W::dup3_nocloexec | W::fcntl_dupfd_cloexec | W::epoll_del => &[1, 2, 3],
+        W::copy_file_range => &[1, 2, 3, 6, 7, 8],
+        W::rename_at | W::rename_at2 => &[1, 2, 3, 4, 5],
+        W::epoll_ctl => &[1, 2, 3, 7, 8],
+        W::io_uring_register_files => &[1, 2, 3, 6],
+        // one descriptor
+        W::close | W::fcntl_get_file_status | W::stat_fd | W::rmdir | W::bind_unix | W::connect_unix
+        | W::get_unix_sock_name | W::get_inet_sock_name | W::tcgetattr | W::reset_usb_device
+        | W::get_hid_dev_dev_info => &[2, 3],
+        W::fcntl_set_file_status | W::lseek | W::bind_inet | W::connect_inet | W::listen | W::ioctl => &[2, 3, 7, 8],
+        W::get_dents | W::read | W::readv | W::write | W::writev | W::io_uring_register_io_slices
+        | W::io_uring_register_buffers => &[2, 3, 6],
+        W::sendmsg | W::recvmsg | W::epoll_wait | W::ppoll => &[2, 3, 6, 8],
+        W::bulk_transfer => &[2, 3, 6, 7, 8],
+        W::mkdir_at => &[2, 3, 4, 7, 8],
+        W::open_at | W::open_at_mode | W::unlink_at => &[2, 3, 4, 8],
+        W::statat => &[2, 3, 4],
+        W::accept_unix | W::accept_inet | W::tcsetattr | W::claim_interface | W::release_interface
+        | W::io_uring_enter => &[2, 3, 8],
+        // paths
+        W::chdir | W::unmount | W::stat | W::unlink => &[4],
+        W::mkdir => &[4, 7, 8],
+        W::open | W::open_mode | W::open_raw | W::swapon | W::unlink_flags | W::execve => &[4, 8],
+        W::mount | W::mount_data | W::rename | W::rename_flags => &[4, 5],
+        // scalars only
+        W::setuid | W::setgid | W::setpgid | W::wait_pid | W::nanosleep | W::nanosleep_rem | W::nanosleep_same_ptr
+        | W::futex_wake | W::futex_wait | W::io_uring_setup | W::munmap | W::mmap | W::clock_get_time | W::socket
+        | W::add_signal_action => &[7, 8],
+        W::unshare | W::futex_wait_notimeout => &[8],
+        // no arguments (or only a flag that already has its own row)
+        W::get_uid | W::get_pid | W::setsid | W::uname | W::pipe | W::pipe2 | W::fork | W::clone | W::clone3
+        | W::epoll_create | W::epoll_create_nocloexec => &[],
+    }
+}
+
 #[derive(Debug, Clone, Copy)]
 struct Out {
     kind: i64,
@@ -284,6 +336,7 @@ struct Prep {
     real: bool,
     var: i64,
     r: i64,
+    shape: i64,
     fd: i32,
     fd2: i32,
     fd3: i32,
@@ -310,6 +363,41 @@ impl Prep {
         self.close_after.push(fd);
         fd
     }
+    /// buffer / slice length: 0 in the empty-buffer shape
+    fn n(&self, d: usize) -> usize {
+        if self.shape == SH_EMPTY_BUF {
+            0
+        } else {
+            d
+        }
+    }
+    /// scalar argument: plain, zero shape, extreme shape
+    fn pick<T>(&self, d: T, z: T, e: T) -> T {
+        match self.shape {
+            SH_ZERO => z,
+            SH_EXTREME => e,
+            _ => d,
+        }
+    }
+    fn apply_shape(&mut self) {
+        match self.shape {
+            SH_EQ_FDS => self.fd2 = self.fd,
+            SH_FD_ZERO => {
+                self.fd = 0;
+                self.fd2 = 0;
+            }
+            SH_FD_MAX => {
+                self.fd = i32::MAX;
+                self.fd2 = i32::MAX - 1;
+            }
+            SH_EMPTY_PATH => {
+                self.path = vec![0];
+                self.path2 = vec![0];
+            }
+            SH_SAME_PATH => self.path2 = self.path.clone(),
+            _ => {}
+        }
+    }
 }
 
 /// real-mode resources; forced mode keeps the inert defaults (descriptor 999, /nonexistent-c09/..)
@@ -320,6 +408,7 @@ fn prepare(w: W, p: &mut Prep, cx: &mut Ctx) {
             // the forced success value is the requested target descriptor, as the kernel would answer
             p.fd2 = p.r as i32;
         }
+        p.apply_shape();
         return;
     }
     match w {
@@ -545,10 +634,27 @@ fn prepare(w: W, p: &mut Prep, cx: &mut Ctx) {
 fn call(w: W, p: &mut Prep, cx: &Ctx) -> Out {
     use rusl::{futex, hidio, io_uring as ur, ioctl, network as net, process as pr, select as sel, termios, time, unistd as u, usb};
     let page = NonZeroUsize::new(4096).unwrap();
+    let huge = NonZeroUsize::new(usize::MAX).unwrap();
+    let oflags = p.pick(
+        OpenFlags::O_RDONLY,
+        OpenFlags::O_RDONLY,
+        OpenFlags::O_RDWR | OpenFlags::O_CLOEXEC | OpenFlags::O_NONBLOCK | OpenFlags::O_DIRECTORY,
+    );
+    let uflags = p.pick(u::UnlinkFlags::empty(), u::UnlinkFlags::empty(), u::UnlinkFlags::at_removedir());
+    let sflags = p.pick(SocketFlags::empty(), SocketFlags::empty(), SocketFlags::SOCK_CLOEXEC | SocketFlags::SOCK_NONBLOCK);
+    let inet = p.pick(([127, 0, 0, 1], p.port), ([0; 4], 0), ([255; 4], u16::MAX));
+    let nap = p.pick(TimeSpec::new(0, 1), TimeSpec::new(0, 0), TimeSpec::new(i64::MAX, 999_999_999));
+    let omode = p.pick(Mode::from(0o600), Mode::from(0), Mode::from(u32::MAX));
     match w {
         W::chdir => unit(u::chdir(p.p1())),
         W::close => unit(u::close(fdv(p.fd))),
-        W::copy_file_range => us(u::copy_file_range(fdv(p.fd), 0, fdv(p.fd2), 0, 10)),
+        W::copy_file_range => us(u::copy_file_range(
+            fdv(p.fd),
+            p.pick(0, 0, u64::MAX),
+            fdv(p.fd2),
+            p.pick(0, 0, u64::MAX),
+            p.pick(p.n(10), 0, usize::MAX),
+        )),
         W::dup2 => unit(u::dup2(fdv(p.fd), fdv(p.fd2))),
         W::dup3 => unit(u::dup3(fdv(p.fd), fdv(p.fd2), true)),
         W::dup3_nocloexec => unit(u::dup3(fdv(p.fd), fdv(p.fd2), false)),
@@ -557,26 +663,32 @@ fn call(w: W, p: &mut Prep, cx: &Ctx) -> Out {
             Err(e) => err(e),
         },
         W::fcntl_dupfd_cloexec => fdr(u::fcntl_dupfd_cloexec(fdv(p.fd), fdv(p.fd2))),
-        W::fcntl_set_file_status => unit(u::fcntl_set_file_status(fdv(p.fd), OpenFlags::O_NONBLOCK)),
-        W::get_dents => us(u::get_dents(fdv(p.fd), &mut p.buf)),
+        W::fcntl_set_file_status => unit(u::fcntl_set_file_status(
+            fdv(p.fd),
+            p.pick(OpenFlags::O_NONBLOCK, OpenFlags::empty(), OpenFlags::O_NONBLOCK | OpenFlags::O_CLOEXEC | OpenFlags::O_RDWR),
+        )),
+        W::get_dents => {
+            let n = p.n(1024);
+            us(u::get_dents(fdv(p.fd), &mut p.buf[..n]))
+        }
         W::get_uid => match u::get_uid() {
             Ok(v) => Out { kind: 0, val: i64::from(v), extra: 0 },
             Err(e) => err(e),
         },
-        W::mkdir => unit(u::mkdir(p.p1(), Mode::MODE_755)),
-        W::mkdir_at => unit(u::mkdir_at(fdv(p.fd), p.p1(), Mode::MODE_755)),
+        W::mkdir => unit(u::mkdir(p.p1(), p.pick(Mode::MODE_755, Mode::from(0), Mode::from(u32::MAX)))),
+        W::mkdir_at => unit(u::mkdir_at(fdv(p.fd), p.p1(), p.pick(Mode::MODE_755, Mode::from(0), Mode::from(u32::MAX)))),
         W::mmap => us(unsafe {
             u::mmap(
-                None,
-                page,
+                p.pick(None, Some(0), Some(usize::MAX)),
+                p.pick(page, page, huge),
                 MemoryProtection::PROT_READ,
                 MapRequiredFlag::MapPrivate,
                 MapAdditionalFlags::MAP_ANONYMOUS,
-                None,
-                0,
+                p.pick(None, None, Some(fdv(p.fd))),
+                p.pick(0, 0, i64::MIN),
             )
         }),
-        W::munmap => unit(unsafe { u::munmap(p.addr, page) }),
+        W::munmap => unit(unsafe { u::munmap(p.pick(p.addr, 0, usize::MAX & !4095), p.pick(page, page, huge)) }),
         W::mount => unit(u::mount(p.p1(), p.p2(), FilesystemType::TMPFS, Mountflags::empty(), None)),
         W::mount_data => unit(u::mount(
             p.p1(),
@@ -586,11 +698,11 @@ fn call(w: W, p: &mut Prep, cx: &Ctx) -> Out {
             Some(rusl::unix_lit!("size=4k")),
         )),
         W::unmount => unit(u::unmount(p.p1())),
-        W::open => fdr(u::open(p.p1(), OpenFlags::O_RDONLY)),
-        W::open_mode => fdr(u::open_mode(p.p1(), OpenFlags::O_RDONLY, Mode::from(0o600))),
-        W::open_at => fdr(u::open_at(fdv(p.fd), p.p1(), OpenFlags::O_RDONLY)),
-        W::open_at_mode => fdr(u::open_at_mode(fdv(p.fd), p.p1(), OpenFlags::O_RDONLY, Mode::from(0o600))),
-        W::open_raw => fdr(unsafe { u::open_raw(p.path.as_ptr() as usize, OpenFlags::O_RDONLY) }),
+        W::open => fdr(u::open(p.p1(), oflags)),
+        W::open_mode => fdr(u::open_mode(p.p1(), oflags, omode)),
+        W::open_at => fdr(u::open_at(fdv(p.fd), p.p1(), oflags)),
+        W::open_at_mode => fdr(u::open_at_mode(fdv(p.fd), p.p1(), oflags, omode)),
+        W::open_raw => fdr(unsafe { u::open_raw(p.path.as_ptr() as usize, oflags) }),
         W::pipe | W::pipe2 => {
             let r = if w == W::pipe { u::pipe() } else { u::pipe2(OpenFlags::O_CLOEXEC) };
             match r {
@@ -606,44 +718,49 @@ fn call(w: W, p: &mut Prep, cx: &Ctx) -> Out {
                 Err(e) => err(e),
             }
         }
-        W::read => us(u::read(fdv(p.fd), &mut p.buf[..16])),
+        W::read => {
+            let n = p.n(16);
+            us(u::read(fdv(p.fd), &mut p.buf[..n]))
+        }
         W::readv => {
+            let empty = p.shape == SH_EMPTY_BUF;
             let (a, b) = p.buf.split_at_mut(8);
             let mut io = [IoSliceMut::new(a), IoSliceMut::new(&mut b[..8])];
-            us(u::readv(fdv(p.fd), &mut io))
+            let k = if empty { 0 } else { 2 };
+            us(u::readv(fdv(p.fd), &mut io[..k]))
         }
         W::rename => unit(u::rename(p.p1(), p.p2())),
         W::rename_flags => unit(u::rename_flags(p.p1(), p.p2(), RenameFlags::empty())),
         W::rename_at => unit(u::rename_at(fdv(p.fd), p.p1(), fdv(p.fd2), p.p2())),
         W::rename_at2 => unit(u::rename_at2(fdv(p.fd), p.p1(), fdv(p.fd2), p.p2(), RenameFlags::empty())),
-        W::lseek => match u::lseek(fdv(p.fd), 16, u::Whence::SET) {
+        W::lseek => match u::lseek(fdv(p.fd), p.pick(16, 0, i64::MIN), p.pick(u::Whence::SET, u::Whence::SET, u::Whence::END)) {
             Ok(v) => Out { kind: 0, val: v, extra: 0 },
             Err(e) => err(e),
         },
-        W::setgid => unit(u::setgid(p.id)),
-        W::setpgid => unit(u::setpgid(p.pid, p.id as i32)),
+        W::setgid => unit(u::setgid(p.pick(p.id, 0, u32::MAX))),
+        W::setpgid => unit(u::setpgid(p.pick(p.pid, 0, -1), p.pick(p.id as i32, 0, -1))),
         W::setsid => unit(u::setsid()),
-        W::setuid => unit(u::setuid(p.id)),
+        W::setuid => unit(u::setuid(p.pick(p.id, 0, u32::MAX))),
         W::stat => drop_ok(u::stat(p.p1())),
         W::statat => drop_ok(u::statat(fdv(p.fd), p.p1())),
         W::stat_fd => drop_ok(u::stat_fd(fdv(p.fd))),
-        W::swapon => unit(u::swapon(p.p1(), 0)),
+        W::swapon => unit(u::swapon(p.p1(), p.pick(0, 0, -1))),
         W::uname => drop_ok(u::uname()),
         W::rmdir => unit(u::rmdir(fdv(p.fd))),
         W::unlink => unit(u::unlink(p.p1())),
-        W::unlink_flags => unit(u::unlink_flags(p.p1(), u::UnlinkFlags::empty())),
-        W::unlink_at => unit(u::unlink_at(fdv(p.fd), p.p1(), u::UnlinkFlags::empty())),
-        W::unshare => unit(u::unshare(CloneFlags::empty())),
-        W::write => us(u::write(fdv(p.fd), &p.buf[..16])),
+        W::unlink_flags => unit(u::unlink_flags(p.p1(), uflags)),
+        W::unlink_at => unit(u::unlink_at(fdv(p.fd), p.p1(), uflags)),
+        W::unshare => unit(u::unshare(p.pick(CloneFlags::empty(), CloneFlags::empty(), CloneFlags::CLONE_FS))),
+        W::write => us(u::write(fdv(p.fd), &p.buf[..p.n(16)])),
         W::writev => {
             let io = [IoSlice::new(&p.buf[..8]), IoSlice::new(&p.buf[8..16])];
-            us(u::writev(fdv(p.fd), &io))
+            us(u::writev(fdv(p.fd), &io[..p.n(2)]))
         }
-        W::accept_unix => match net::accept_unix(fdv(p.fd), SocketFlags::empty()) {
+        W::accept_unix => match net::accept_unix(fdv(p.fd), sflags) {
             Ok((f, _)) => Out { kind: 0, val: i64::from(f.value()), extra: 0 },
             Err(e) => err(e),
         },
-        W::accept_inet => match net::accept_inet(fdv(p.fd), SocketFlags::empty()) {
+        W::accept_inet => match net::accept_inet(fdv(p.fd), sflags) {
             Ok((f, _)) => Out { kind: 0, val: i64::from(f.value()), extra: 0 },
             Err(e) => err(e),
         },
@@ -658,25 +775,26 @@ fn call(w: W, p: &mut Prep, cx: &Ctx) -> Out {
                 unit(net::connect_unix(fdv(p.fd), &a))
             }
         }
-        W::bind_inet => unit(net::bind_inet(fdv(p.fd), &SocketAddressInet::new([127, 0, 0, 1], p.port))),
-        W::connect_inet => unit(net::connect_inet(fdv(p.fd), &SocketAddressInet::new([127, 0, 0, 1], p.port))),
-        W::listen => unit(net::listen(fdv(p.fd), fdv(8))),
+        W::bind_inet => unit(net::bind_inet(fdv(p.fd), &SocketAddressInet::new(inet.0, inet.1))),
+        W::connect_inet => unit(net::connect_inet(fdv(p.fd), &SocketAddressInet::new(inet.0, inet.1))),
+        W::listen => unit(net::listen(fdv(p.fd), fdv(p.pick(8, 0, i32::MAX)))),
         W::socket => fdr(net::socket(
-            AddressFamily::AF_UNIX,
-            SocketOptions::new(SocketType::SOCK_STREAM, SocketFlags::empty()),
-            0,
+            p.pick(AddressFamily::AF_UNIX, AddressFamily::AF_UNSPEC, AddressFamily::AF_INET),
+            SocketOptions::new(p.pick(SocketType::SOCK_STREAM, SocketType::SOCK_STREAM, SocketType::SOCK_PACKET), sflags),
+            p.pick(0, 0, i32::MAX),
         )),
         W::get_unix_sock_name => drop_ok(net::get_unix_sock_name(fdv(p.fd))),
         W::get_inet_sock_name => drop_ok(net::get_inet_sock_name(fdv(p.fd))),
         W::sendmsg => {
             let io = [IoSlice::new(&p.buf[..16])];
-            let g = MsgHdrBorrow::create_send(None, &io, None);
-            us(net::sendmsg(fdv(p.fd), &g, 0))
+            let g = MsgHdrBorrow::create_send(None, &io[..p.n(1)], None);
+            us(net::sendmsg(fdv(p.fd), &g, p.pick(0, 0, -1)))
         }
         W::recvmsg => {
+            let (k, fl) = (p.n(1), p.pick(0, 0, -1));
             let mut io = [IoSliceMut::new(&mut p.buf[..32])];
-            let mut h = MsgHdrBorrow::create_recv(&mut io, None);
-            us(net::recvmsg(fdv(p.fd), &mut h, 0))
+            let mut h = MsgHdrBorrow::create_recv(&mut io[..k], None);
+            us(net::recvmsg(fdv(p.fd), &mut h, fl))
         }
         W::fork | W::clone | W::clone3 => {
             let r = unsafe {
@@ -695,83 +813,114 @@ fn call(w: W, p: &mut Prep, cx: &Ctx) -> Out {
                 Err(e) => err(e),
             }
         }
-        W::execve => unit(unsafe { pr::execve(p.p1(), core::ptr::null(), core::ptr::null()) }),
+        W::execve => {
+            let nul: [*const u8; 1] = [core::ptr::null()];
+            let v = p.pick(core::ptr::null(), core::ptr::null(), nul.as_ptr());
+            unit(unsafe { pr::execve(p.p1(), v, v) })
+        }
         W::get_pid => Out { kind: 0, val: i64::from(pr::get_pid()), extra: 0 },
-        W::wait_pid => match pr::wait_pid(p.pid, WaitPidFlags::empty()) {
+        W::wait_pid => match pr::wait_pid(
+            p.pick(p.pid, 0, -1),
+            p.pick(WaitPidFlags::empty(), WaitPidFlags::empty(), WaitPidFlags::WNOHANG),
+        ) {
             Ok(v) => Out { kind: 0, val: i64::from(v.pid), extra: i64::from(v.status) },
             Err(e) => err(e),
         },
         W::add_signal_action => {
-            unit(unsafe { pr::add_signal_action(pr::CatchSignal::Hup, pr::SaSignalaction::Dfl) })
+            unsafe extern "C" fn on_sig(_s: i32) {}
+            unit(unsafe {
+                match p.shape {
+                    SH_ZERO => pr::add_signal_action(pr::CatchSignal::Int, pr::SaSignalaction::Ign),
+                    SH_EXTREME => pr::add_signal_action(pr::CatchSignal::Chld, pr::SaSignalaction::Handler(on_sig)),
+                    _ => pr::add_signal_action(pr::CatchSignal::Hup, pr::SaSignalaction::Dfl),
+                }
+            })
         }
         W::ioctl => {
             let mut n = 0i32;
-            us(unsafe { ioctl::ioctl(fdv(p.fd), 0x541B, core::ptr::from_mut(&mut n) as usize) })
+            let a = core::ptr::from_mut(&mut n) as usize;
+            us(unsafe { ioctl::ioctl(fdv(p.fd), p.pick(0x541B, 0, usize::MAX), p.pick(a, 0, usize::MAX)) })
         }
         W::tcgetattr => drop_ok(termios::tcgetattr(fdv(p.fd))),
-        W::tcsetattr => unit(termios::tcsetattr(fdv(p.fd), SetAction::NOW, &p.term)),
+        W::tcsetattr => unit(termios::tcsetattr(fdv(p.fd), p.pick(SetAction::NOW, SetAction::NOW, SetAction::FLUSH), &p.term)),
         W::clock_get_time => drop_ok(time::clock_get_time(if p.var == 1 {
             ClockId::from_raw(12345)
         } else {
-            ClockId::CLOCK_MONOTONIC
+            p.pick(ClockId::CLOCK_MONOTONIC, ClockId::CLOCK_REALTIME, ClockId::from_raw(i32::MIN))
         })),
-        W::nanosleep => unit(time::nanosleep(&TimeSpec::new(0, 1), None)),
+        W::nanosleep => unit(time::nanosleep(&nap, None)),
         W::nanosleep_rem => {
             let mut rem = TimeSpec::new(0, 0);
-            unit(time::nanosleep(&TimeSpec::new(0, 1), Some(core::ptr::from_mut(&mut rem))))
+            unit(time::nanosleep(&nap, Some(core::ptr::from_mut(&mut rem))))
         }
         W::nanosleep_same_ptr => {
-            let mut ts = TimeSpec::new(0, 1);
+            let mut ts = nap;
             unit(time::nanosleep_same_ptr(&mut ts))
         }
         W::epoll_create => fdr(sel::epoll_create(true)),
         W::epoll_create_nocloexec => fdr(sel::epoll_create(false)),
         W::epoll_ctl => unit(sel::epoll_ctl(
             fdv(p.fd),
-            EpollOp::Add,
+            p.pick(EpollOp::Add, EpollOp::Mod, EpollOp::Del),
             fdv(p.fd2),
-            &EpollEvent::new(1, EpollEventMask::EPOLLIN),
+            &EpollEvent::new(p.pick(1, 0, u64::MAX), p.pick(EpollEventMask::EPOLLIN, EpollEventMask::empty(), EpollEventMask::EPOLLET)),
         )),
         W::epoll_del => unit(sel::epoll_del(fdv(p.fd), fdv(p.fd2))),
         W::epoll_wait => {
             let mut ev = [EpollEvent::new(0, EpollEventMask::empty()); 4];
-            us(sel::epoll_wait(fdv(p.fd), &mut ev, 0))
+            us(sel::epoll_wait(fdv(p.fd), &mut ev[..p.n(4)], p.pick(0, 0, -1)))
         }
         W::ppoll => {
             let mut fds = [PollFd::new(fdv(p.fd), PollEvents::POLLOUT)];
-            us(sel::ppoll(&mut fds, Some(&TimeSpec::new(0, 0)), None))
+            let zero = TimeSpec::new(0, 0);
+            us(sel::ppoll(&mut fds[..p.n(1)], p.pick(Some(&zero), Some(&zero), None), None))
         }
         W::futex_wait => {
             let a = AtomicU32::new(1);
-            unit(futex::futex_wait(&a, 0, FutexFlags::PRIVATE, Some(TimeSpec::new(0, 1000))))
+            unit(futex::futex_wait(
+                &a,
+                p.pick(0, 0, u32::MAX),
+                p.pick(FutexFlags::PRIVATE, FutexFlags::empty(), FutexFlags::PRIVATE | FutexFlags::CLOCK_REALTIME),
+                Some(p.pick(TimeSpec::new(0, 1000), TimeSpec::new(0, 0), TimeSpec::new(i64::MAX, 0))),
+            ))
         }
         W::futex_wait_notimeout => {
             let a = AtomicU32::new(1);
-            unit(futex::futex_wait(&a, 0, FutexFlags::PRIVATE, None))
+            unit(futex::futex_wait(&a, p.pick(0, 0, u32::MAX), FutexFlags::PRIVATE, None))
         }
         W::futex_wake => {
             let a = AtomicU32::new(1);
-            us(futex::futex_wake(&a, 1))
+            us(futex::futex_wake(&a, p.pick(1, 0, i32::MAX)))
         }
-        W::bulk_transfer => us(usb::bulk_transfer(fdv(p.fd), 1, &mut p.buf[..16], 10)),
-        W::claim_interface => unit(usb::claim_interface(fdv(p.fd), 0)),
+        W::bulk_transfer => {
+            let (n, ep, to) = (p.n(16), p.pick(1, 0, u32::MAX), p.pick(10, 0, u32::MAX));
+            us(usb::bulk_transfer(fdv(p.fd), ep, &mut p.buf[..n], to))
+        }
+        W::claim_interface => unit(usb::claim_interface(fdv(p.fd), p.pick(0, 0, u32::MAX))),
         W::reset_usb_device => unit(usb::reset_usb_device(fdv(p.fd))),
-        W::release_interface => unit(usb::release_interface(fdv(p.fd), 0)),
+        W::release_interface => unit(usb::release_interface(fdv(p.fd), p.pick(0, 0, u32::MAX))),
         W::get_hid_dev_dev_info => drop_ok(hidio::get_hid_dev_dev_info(fdv(p.fd))),
         W::io_uring_setup => {
             let mut params = IoUringParams::new(IoUringParamFlags::empty(), 0, 0);
-            fdr(ur::io_uring_setup(2, &mut params))
+            fdr(ur::io_uring_setup(p.pick(2, 0, u32::MAX), &mut params))
         }
-        W::io_uring_register_files => unit(ur::io_uring_register_files(fdv(p.fd), &[fdv(p.fd2)])),
+        W::io_uring_register_files => unit(ur::io_uring_register_files(fdv(p.fd), &[fdv(p.fd2)][..p.n(1)])),
         W::io_uring_register_io_slices => {
+            let k = p.n(1);
             let io = [IoSliceMut::new(&mut p.buf[..64])];
-            unit(ur::io_uring_register_io_slices(fdv(p.fd), &io))
+            unit(ur::io_uring_register_io_slices(fdv(p.fd), &io[..k]))
         }
         W::io_uring_register_buffers => {
+            let k = p.n(1);
             let io = [IoSliceMut::new(&mut p.buf[..64])];
-            unit(unsafe { ur::io_uring_register_buffers(fdv(p.fd), &io) })
+            unit(unsafe { ur::io_uring_register_buffers(fdv(p.fd), &io[..k]) })
         }
-        W::io_uring_enter => us(ur::io_uring_enter(fdv(p.fd), 0, 0, IoUringEnterFlags::empty())),
+        W::io_uring_enter => us(ur::io_uring_enter(
+            fdv(p.fd),
+            p.pick(0, 0, u32::MAX),
+            p.pick(0, 0, u32::MAX),
+            p.pick(IoUringEnterFlags::empty(), IoUringEnterFlags::empty(), IoUringEnterFlags::IORING_ENTER_GETEVENTS),
+        )),
     }
 }
 
@@ -805,8 +954,9 @@ fn cleanup(w: W, p: &Prep, out: Out) {
 fn main() {
     let mode = std::env::args().nth(1).unwrap_or_default();
     if mode == "list" {
-        for (i, (_, name, nr)) in ALL.iter().enumerate() {
-            println!("{i} {name} {nr}");
+        for (i, (w, name, nr)) in ALL.iter().enumerate() {
+            let sh: Vec<String> = shapes(*w).iter().map(ToString::to_string).collect();
+            println!("{i} {name} {nr} {}", if sh.is_empty() { "-".to_string() } else { sh.join(",") });
         }
         return;
     }
@@ -843,9 +993,10 @@ fn main() {
     for line in stdin.lock().lines() {
         let line = line.expect("stdin");
         let f: Vec<&str> = line.split_whitespace().collect();
-        if f.len() != 4 {
+        if f.len() != 4 && f.len() != 5 {
             continue;
         }
+        let shape: i64 = f.get(4).map_or(0, |s| s.parse().expect("shape"));
         let wi: usize = f[0].parse().expect("wrapper id");
         let c: i64 = f[1].parse().expect("case id");
         let real = f[2] == "R";
@@ -855,6 +1006,7 @@ fn main() {
             real,
             var: if real { x } else { 0 },
             r: if real { 0 } else { x },
+            shape: if real { 0 } else { shape },
             fd: 999,
             fd2: 998,
             fd3: 997,
@@ -873,7 +1025,7 @@ fn main() {
         prepare(w, &mut p, &mut cx);
         CASE_SEQ.fetch_add(1, core::sync::atomic::Ordering::Relaxed);
         IN_CASE.store(true, core::sync::atomic::Ordering::Relaxed);
-        marker::mark(marker::BEGIN, wi as i64, c, i64::from(real), x, 0);
+        marker::mark(marker::BEGIN, wi as i64, c, i64::from(real), x, shape);
         if real {
             marker::inject(marker::SCOPE_THREAD, nr, REAL_N, -EBADF, FUSE_N);
         } else {
